@@ -61,7 +61,13 @@ def gen_case(rng):
     fmt, _, limits = T.gen_fmt(rng, allow_hidden=True)
     if len(recs) > 40 and rng.random() < 0.6:
         fmt = fmt.split(";")[0] + rng.choice([";*", ";80:80", ";60:5"])
-    lim_arg = rng.choice([None, None, None, (1, 1), (0, 2), (2, 0)])
+    lim_arg = rng.choice([None, None, None, (1, 1), (0, 2), (2, 0), (None, 2), (3, None), (None, None)])
+    if recs and rng.random() < 0.15:
+        # log-like tables: the same few records again and again (equal and identical objects)
+        pool = recs[:rng.randint(1, 2)]
+        recs = [rng.choice(pool) for _ in range(len(recs) + rng.randint(0, 4))]
+        if rng.random() < 0.7:
+            lim_arg = rng.choice([(1, 1), (2, 2), (1, 0), (2, 1)])
     fmt2, _, _ = T.gen_fmt(rng, allow_hidden=True)
     if rng.random() < 0.3:
         # partial formats: only limits / only columns
